@@ -210,6 +210,197 @@ def wrapper_census(tree: ast.Module) -> list[tuple[str, str, str]]:
     return out
 
 
+IMMUTABLE_MAKERS = {'TypeVar', 'typing.TypeVar', 'typing_extensions.TypeVar', 'NewType', 'typing.NewType', 'frozenset', 'tuple',
+                    're.compile', 'struct.Struct', 'object', 'int', 'str', 'float', 'bool', 'bytes', 'ParamSpec',
+                    'typing.ParamSpec', 'typing_extensions.ParamSpec', 'Literal'}
+
+
+def _immutable_value(v: ast.AST | None) -> bool:
+    """Can the object this expression makes never change (so sharing it between file systems carries no state)?"""
+    if v is None:
+        return True
+    if isinstance(v, ast.Constant):
+        return True
+    if isinstance(v, ast.Tuple):
+        return all(_immutable_value(e) for e in v.elts)
+    if isinstance(v, ast.UnaryOp):
+        return _immutable_value(v.operand)
+    if isinstance(v, ast.BinOp):
+        return _immutable_value(v.left) and _immutable_value(v.right)
+    if isinstance(v, ast.JoinedStr):
+        return True
+    if isinstance(v, ast.Call):
+        return _dotted(v.func) in IMMUTABLE_MAKERS
+    d = _dotted(v)
+    if d is not None:                      # alias of a constant of the standard library (os.sep, os.curdir ...)
+        return d.startswith(('os.', 'posixpath.', 'string.', 'sys.maxsize'))
+    if isinstance(v, ast.Subscript):       # typing aliases: Union[str, File], Optional[...]
+        return _dotted(v.value) in ('Union', 'Optional', 'typing.Union', 'typing.Optional', 'Literal', 'type', 'Callable')
+    return False
+
+
+def _local_names(fn: ast.AST) -> set[str]:
+    """Names bound inside a function (parameters, assignment / loop / with / except / comprehension / import targets),
+    without those it declares global or nonlocal."""
+    out: set[str] = set()
+    declared: set[str] = set()
+    a = fn.args
+    for p in a.posonlyargs + a.args + a.kwonlyargs + ([a.vararg] if a.vararg else []) + ([a.kwarg] if a.kwarg else []):
+        out.add(p.arg)
+    for n in ast.walk(fn):
+        if isinstance(n, ast.Name) and isinstance(n.ctx, (ast.Store, ast.Del)):
+            out.add(n.id)
+        elif isinstance(n, (ast.Global, ast.Nonlocal)):
+            declared.update(n.names)
+        elif isinstance(n, ast.ExceptHandler) and n.name:
+            out.add(n.name)
+        elif isinstance(n, ast.alias):
+            out.add((n.asname or n.name).split('.')[0])
+        elif isinstance(n, (ast.FunctionDef, ast.AsyncFunctionDef, ast.ClassDef)) and n is not fn:
+            out.add(n.name)
+    return out - declared
+
+
+def shared_state_census(tree: ast.Module) -> list[tuple[str, str, str]]:
+    """State that outlives one call and is visible to more than one file-system object: (where, name, what).
+
+    The theorems speak about one call of a method on one object whose answers depend on the object's root, its flag and
+    the arguments.  A table at module or class level (a hand-written memo of resolved paths, of existence answers, of
+    File handles) is shared between a constrained and an unconstrained system on the same folder exactly like the
+    lru_cache of seeded c18_4 (SM/PathMemo.v: key without the flag, refuted).  Reported, for the methods of File /
+    FileSystem / RawFileSystem / FileSystemChain and the module-level functions they call (transitively):
+    * a read or write of a module-level name bound to something that is not an immutable constant (dict / list / set
+      displays, comprehensions, calls other than TypeVar-like makers), or bound more than once;
+    * `global` / `nonlocal` declarations;
+    * a class-body assignment of such a value in one of the classes (`_seen: dict = {}`);
+    * a mutable default value of a parameter (`def _resolve_path(self, path, _memo={})`);
+    * state kept on function objects (`f.cache = ...`, `self.m.__func__...`) through an attribute store on a method name."""
+    out: list[tuple[str, str, str]] = []
+    classes = {n.name: n for n in tree.body if isinstance(n, ast.ClassDef)}
+    funcs = {n.name: n for n in tree.body if isinstance(n, (ast.FunctionDef, ast.AsyncFunctionDef))}
+    # module-level bindings by assignment
+    bound: dict[str, list[ast.AST | None]] = {}
+    for st in tree.body:
+        stmts = [st]
+        if isinstance(st, (ast.If, ast.Try, ast.With, ast.For, ast.While)):
+            stmts = [x for x in ast.walk(st) if isinstance(x, ast.stmt)]
+        for s in stmts:
+            if isinstance(s, (ast.FunctionDef, ast.AsyncFunctionDef, ast.ClassDef)):
+                continue
+            tg: list[ast.AST] = []
+            val: ast.AST | None = None
+            if isinstance(s, ast.Assign):
+                tg, val = list(s.targets), s.value
+            elif isinstance(s, ast.AnnAssign) and s.value is not None:
+                tg, val = [s.target], s.value
+            elif isinstance(s, ast.AugAssign):
+                tg, val = [s.target], ast.List(elts=[], ctx=ast.Load())     # rebinding: counts as mutable
+            elif isinstance(s, (ast.For, ast.With)):
+                val = ast.List(elts=[], ctx=ast.Load())
+                tg = [s.target] if isinstance(s, ast.For) else [i.optional_vars for i in s.items if i.optional_vars is not None]
+            for t in tg:
+                for nm in ast.walk(t):
+                    if isinstance(nm, ast.Name):
+                        bound.setdefault(nm.id, []).append(val if isinstance(t, ast.Name) else ast.List(elts=[], ctx=ast.Load()))
+    mutable_globals = {k for k, vs in bound.items() if len(vs) > 1 or not all(_immutable_value(v) for v in vs)}
+    # the functions to scan: methods of the classes + module-level functions reachable from them by name
+    todo: list[tuple[str, ast.AST]] = []
+    for cname in FS_CLASSES:
+        cls = classes.get(cname)
+        if cls is None:
+            continue
+        for st in cls.body:
+            if isinstance(st, (ast.FunctionDef, ast.AsyncFunctionDef)):
+                todo.append((f'{cname}.{st.name}', st))
+            elif isinstance(st, (ast.Assign, ast.AugAssign)) or (isinstance(st, ast.AnnAssign) and st.value is not None):
+                v = st.value
+                if not _immutable_value(v) or isinstance(st, ast.AugAssign):
+                    for t in (st.targets if isinstance(st, ast.Assign) else [st.target]):
+                        out.append((cname, ast.unparse(t)[:30], f'class-level mutable value: {ast.unparse(st)[:60]}'))
+    seen_funcs: set[str] = set()
+    i = 0
+    while i < len(todo):
+        where, fn = todo[i]
+        i += 1
+        local = _local_names(fn)
+        for n in ast.walk(fn):
+            if isinstance(n, (ast.Global, ast.Nonlocal)):
+                out.append((where, ','.join(n.names), 'global / nonlocal declaration'))
+            elif isinstance(n, ast.Name) and n.id not in local:
+                if n.id in mutable_globals:
+                    out.append((where, n.id, 'module-level mutable object used'))
+                elif n.id in funcs and n.id not in seen_funcs:
+                    seen_funcs.add(n.id)
+                    todo.append((n.id, funcs[n.id]))
+            elif isinstance(n, ast.Attribute) and isinstance(n.ctx, (ast.Store, ast.Del)):
+                b = n.value
+                if isinstance(b, ast.Attribute) and isinstance(b.value, ast.Name) and b.value.id in ('self', 'cls') \
+                        and any(b.attr == m.name for c in FS_CLASSES if c in classes for m in classes[c].body
+                                if isinstance(m, (ast.FunctionDef, ast.AsyncFunctionDef))):
+                    out.append((where, ast.unparse(n)[:40], 'state stored on a method object'))
+        a = fn.args
+        for dflt in list(a.defaults) + [d for d in a.kw_defaults if d is not None]:
+            if not _immutable_value(dflt):
+                out.append((where, ast.unparse(dflt)[:30], 'mutable default value of a parameter'))
+    return list(dict.fromkeys(out))
+
+
+def _sym_init(fn: ast.FunctionDef, params: dict[str, str], base_init=None) -> dict[str, str | None]:
+    """Straight-line symbolic run of a constructor: what ends up in which attribute of self.
+
+    Values are 'PATH' (the path parameter, also through os.fspath), 'ABS' (os.path.abspath of it), 'CON' (the
+    constrain_path parameter) or None (anything else).  Locals are followed, `super().__init__(x)` /
+    `FileSystem.__init__(self, x)` runs the base constructor with x; any control flow makes every attribute unknown."""
+    env: dict[str, str | None] = dict(params)
+    attrs: dict[str, str | None] = {}
+
+    def ev(n: ast.AST) -> str | None:
+        if isinstance(n, ast.Name):
+            return env.get(n.id)
+        if isinstance(n, ast.Call) and not n.keywords and len(n.args) == 1:
+            d = _dotted(n.func)
+            v = ev(n.args[0])
+            if d in ('os.path.abspath', 'posixpath.abspath') and v in ('PATH', 'ABS'):
+                return 'ABS'                      # abspath is idempotent and calls os.fspath itself
+            if d == 'os.fspath' and v in ('PATH', 'ABS'):
+                return v
+        return None
+
+    for st in fn.body:
+        if isinstance(st, ast.Expr) and isinstance(st.value, ast.Constant):
+            continue
+        if isinstance(st, (ast.Assign, ast.AnnAssign)):
+            if st.value is None:
+                continue
+            v = ev(st.value)
+            for t in (st.targets if isinstance(st, ast.Assign) else [st.target]):
+                if isinstance(t, ast.Name):
+                    env[t.id] = v
+                elif isinstance(t, ast.Attribute) and isinstance(t.value, ast.Name) and t.value.id == 'self':
+                    attrs[t.attr] = v
+                else:
+                    return {'path': None, 'constrain_path': None}
+            continue
+        if isinstance(st, ast.Expr) and isinstance(st.value, ast.Call):
+            c = st.value
+            d = ast.unparse(c.func)
+            args = list(c.args) + [k.value for k in c.keywords if k.arg == 'path']
+            if base_init is not None and d in ('super().__init__', 'super(RawFileSystem, self).__init__') and len(args) == 1:
+                bp = [a.arg for a in base_init.args.args]
+                if len(bp) == 2:
+                    attrs.update(_sym_init(base_init, {bp[1]: ev(args[0])}))
+                    continue
+            if base_init is not None and d == 'FileSystem.__init__' and len(args) == 2 and _dotted(args[0]) == 'self':
+                bp = [a.arg for a in base_init.args.args]
+                if len(bp) == 2:
+                    attrs.update(_sym_init(base_init, {bp[1]: ev(args[1])}))
+                    continue
+        if isinstance(st, ast.Pass):
+            continue
+        return {'path': None, 'constrain_path': None}
+    return attrs
+
+
 def _is_raise_escape(st: ast.stmt) -> bool:
     return (isinstance(st, ast.Raise) and isinstance(st.exc, ast.Call) and _dotted(st.exc.func) == 'RootEscapeError')
 
@@ -369,20 +560,26 @@ def translate() -> tuple[str, dict]:
             resolve = f
     if init is None or resolve is None:
         raise TranslateError('filesys.py: RawFileSystem.__init__/_resolve_path not found')
-    # root = abspath(path) ?
-    root_abs = any(isinstance(x, ast.Call) and ast.unparse(x) == 'super().__init__(os.path.abspath(path))'
-                   for x in ast.walk(init))
-    path_stores = [x for f in raw.body if isinstance(f, ast.FunctionDef) for x in ast.walk(f)
+    # what the constructor leaves in self.path / self.constrain_path (locals followed, base constructor run symbolically)
+    base_init = None
+    for n in tree.body:
+        if isinstance(n, ast.ClassDef) and n.name == 'FileSystem':
+            for f in n.body:
+                if isinstance(f, ast.FunctionDef) and f.name == '__init__':
+                    base_init = f
+    ip = [a.arg for a in init.args.args + init.args.kwonlyargs]
+    stored = _sym_init(init, {ip[1]: 'PATH', 'constrain_path': 'CON'} if len(ip) >= 3 and 'constrain_path' in ip[2:] else {},
+                       base_init)
+    root_abs = stored.get('path') == 'ABS'
+    path_stores = [x for f in raw.body if isinstance(f, ast.FunctionDef) and f.name != '__init__' for x in ast.walk(f)
                    if isinstance(x, (ast.Assign, ast.AugAssign, ast.AnnAssign))
                    for t in (x.targets if isinstance(x, ast.Assign) else [x.target]) if _dotted(t) == 'self.path']
-    # self.constrain_path = constrain_path (the constructor's parameter, unchanged), assigned nowhere else in the class
+    # self.constrain_path = the constructor's parameter, unchanged; assigned nowhere else in the class
     con_stores = [(f.name, x) for f in raw.body if isinstance(f, ast.FunctionDef) for x in ast.walk(f)
                   if isinstance(x, (ast.Assign, ast.AugAssign, ast.AnnAssign))
                   for t in (x.targets if isinstance(x, ast.Assign) else [x.target]) if _dotted(t) == 'self.constrain_path']
-    init_params = {a.arg for a in init.args.args + init.args.kwonlyargs}
-    con_from_param = any(fn == '__init__' and isinstance(x, ast.Assign) and isinstance(x.value, ast.Name)
-                         and x.value.id == 'constrain_path' and 'constrain_path' in init_params for fn, x in con_stores)
-    con_elsewhere = any(fn != '__init__' for fn, _ in con_stores) or sum(1 for fn, _ in con_stores if fn == '__init__') != 1
+    con_from_param = stored.get('constrain_path') == 'CON'
+    con_elsewhere = any(fn != '__init__' for fn, _ in con_stores)
     guard, srcs = _resolve_guard(resolve)
     # the census of access sites is taken from the data-flow interpreter of translate/c18_ops.py (helper methods inlined,
     # locals followed); only if that one cannot read the class the syntactic census below is used
